@@ -358,6 +358,7 @@ class World:
             ctx.violate("policy", dict(fp, kind="wrong_exception", exc=type(exc).__name__), f"{what}: policy '{self.policy}', value missing for day {day}: raised {type(exc).__name__}: {exc}")
             return (None, None)
         got = (float(d.eop.ut1_utc), float(d.eop.tai_utc))
+        ctx.ev("lookup", int(mjd_float), fhex(got[0]), fhex(got[1]), len(warns), us_of(d.datetime), d.scale.name)
         for a in tabs:
             if abs(a[1] - got[0]) < 1e-12 and abs(a[2] - got[1]) < 1e-12:
                 # tabulated value served: silently
